@@ -585,110 +585,190 @@ def handleCall (args : List String) : Option String :=
 `Props/C20.lean` proves that the two are the same table and that evaluating it on the arguments of a call gives the
 outcome of `run` (with the rejections that come from implicit checks — look-ups, divisions, numpy — spelled out). -/
 
+def G_faceShape : List Stmt := [
+    .s (.raise "FaceCreationError" (.not (.shapeeq "points" [4, 3])))]
+
+def G_faceEdges : List Stmt := [
+    .s (.raise "FaceCreationError" (.and (.flag "edges is not None") (.cmp .ne (.len "edges") (.int 4))))]
+
+def G_faceCoplanar : List Stmt := [
+    .s (.raise "FaceCreationError" (.and (.flag "check_coplanar") (.cmp .gt (.abs (.dot (.vsub (.vvar "points[1]") (.vvar "points[0]")) (.cross (.vsub (.vvar "points[3]") (.vvar "points[0]")) (.vsub (.vvar "points[2]") (.vvar "points[0]"))))) .tol)))]
+
+def G_faceAddEdge : List Stmt := [
+    .s (.raise "FaceCreationError" (.or (.cmp .lt (.var "corner") (.int 0)) (.cmp .gt (.var "corner") (.int 3))))]
+
+def G_faceProjectEdge : List Stmt := [
+    .s (.raise "FaceCreationError" (.or (.cmp .lt (.var "corner") (.int 0)) (.cmp .gt (.var "corner") (.int 3))))]
+
+def G_faceRemoveEdges : List Stmt := [
+    .each "corner" "corners" [.raise "FaceCreationError" (.or (.cmp .lt (.var "corner") (.int 0)) (.cmp .gt (.var "corner") (.int 3))), .mutate "self.edges"]]
+
+def G_pointShape : List Stmt := [
+    .s (.mutate "self.position"),
+    .s (.raise "PointCreationError" (.not (.shapeeq "position" [3])))]
+
+def G_arrayShape : List Stmt := [
+    .s (.mutate "self.points"),
+    .s (.raise "ArrayCreationError" (.cmp .ne (.dim "points" 1) (.int 3))),
+    .s (.raise "ArrayCreationError" (.cmp .le (.dim "points" 0) (.int 1)))]
+
+def G_sideVertices : List Stmt := [
+    .s (.raise "SideCreationError" (.cmp .ne (.len "vertices") (.int 8)))]
+
+def G_opAddSideEdge : List Stmt := [
+    .s (.raise "EdgeCreationError" (.or (.cmp .lt (.var "corner_idx") (.int 0)) (.cmp .gt (.var "corner_idx") (.int 3))))]
+
+def G_opProjectCorner : List Stmt := [
+    .s (.raise "ValueError" (.or (.cmp .lt (.var "corner") (.int 0)) (.cmp .gt (.var "corner") (.int 7))))]
+
+def G_opProjectEdge : List Stmt := [
+    .s (.raise "ValueError" (.not (.and (.and (.cmp .le (.int 0) (.var "corner_1")) (.cmp .lt (.var "corner_1") (.int 8))) (.and (.cmp .le (.int 0) (.var "corner_2")) (.cmp .lt (.var "corner_2") (.int 8))))))]
+
+def G_opUnchop : List Stmt := [
+    .s (.raise "KeyError" (.not (.iin (.var "axis") [0, 1, 2])))]
+
+def G_opSide : List Stmt := [
+    .s (.ret (.seq "side" "bottom")),
+    .s (.ret (.seq "side" "top")),
+    .s (.raise "RuntimeError" (.not (.sin "side" ["front", "right", "back", "left"])))]
+
+def G_fromSeries : List Stmt := [
+    .s (.raise "ValueError" (.cmp .lt (.len "faces") (.int 2)))]
+
+def G_blockAddEdge : List Stmt := [
+    .s (.raise "ValueError" (.not (.and (.and (.cmp .le (.int 0) (.var "corner_1")) (.cmp .lt (.var "corner_1") (.int 8))) (.and (.cmp .le (.int 0) (.var "corner_2")) (.cmp .lt (.var "corner_2") (.int 8))))))]
+
+def G_frameAddBeam : List Stmt := [
+    .s (.raise "ValueError" (.not (.pairin (.var "corner_1") (.var "corner_2") [(0, 1), (2, 3), (6, 7), (4, 5), (0, 3), (1, 2), (5, 6), (4, 7), (0, 4), (1, 5), (2, 6), (3, 7)])))]
+
+def G_projectLabels : List Stmt := [
+    .s (.mutate "self.label"),
+    .s (.raise "EdgeCreationError" (.not (.and (.cmp .lt (.int 0) (.len "label")) (.cmp .lt (.len "label") (.int 3)))))]
+
+def G_projectAddLabel : List Stmt := [
+    .s (.mutate "self.label"),
+    .s (.mutate "self.label"),
+    .s (.raise "EdgeCreationError" (.not (.and (.cmp .lt (.int 0) (.len "self.label")) (.cmp .lt (.len "self.label") (.int 3)))))]
+
+def G_lengthRatio : List Stmt := [
+    .s (.raise "ValueError" (.not (.and (.cmp .lt (.int 0) (.var "chop.length_ratio")) (.cmp .le (.var "chop.length_ratio") (.int 1)))))]
+
+def G_annulus : List Stmt := [
+    .s (.raise "AnnulusCreationError" (.cmp .lt (.var "inner_radius") (.int 0))),
+    .s (.mutate "self.core"),
+    .s (.mutate "self.shell"),
+    .s (.raise "AnnulusCreationError" (.cmp .lt (.sub (.var "self.outer_radius") (.var "self.inner_radius")) .tol)),
+    .s (.raise "AnnulusCreationError" (.cmp .gt (.abs (.dot (.unit (.vvar "normal")) (.vsub (.vvar "outer_radius_point") (.vvar "center_point")))) .tol))]
+
+def G_cylinder : List Stmt := [
+    .s (.raise "CylinderCreationError" (.cmp .gt (.abs (.dot (.vsub (.vvar "axis_point_2") (.vvar "axis_point_1")) (.vsub (.vvar "radius_point_1") (.vvar "axis_point_1")))) .tol))]
+
+def G_frustum : List Stmt := [
+    .s (.raise "FrustumCreationError" (.cmp .gt (.abs (.dot (.vsub (.vvar "axis_point_2") (.vvar "axis_point_1")) (.vsub (.vvar "radius_point_1") (.vvar "axis_point_1")))) .tol))]
+
+def G_chainCylinder : List Stmt := [
+    .s (.raise "CylinderCreationError" (.cmp .lt (.var "length") (.int 0)))]
+
+def G_chainFrustum : List Stmt := [
+    .s (.raise "FrustumCreationError" (.cmp .lt (.var "length") (.int 0)))]
+
+def G_chainRing : List Stmt := [
+    .s (.raise "ExtrudedRingCreationError" (.cmp .lt (.var "length") (.int 0)))]
+
+def G_ringContract : List Stmt := [
+    .s (.raise "ExtrudedRingCreationError" (.cmp .le (.var "inner_radius") (.int 0))),
+    .s (.raise "ExtrudedRingCreationError" (.cmp .lt (.sub (.var "source.sketch_1.inner_radius") (.var "inner_radius")) .tol))]
+
+def G_cylinderFill : List Stmt := [
+    .s (.raise "CylinderCreationError" (.cmp .ne (.var "source.sketch_1.n_segments") (.int 8)))]
+
+def G_loftedShape : List Stmt := [
+    .s (.raise "ShapeCreationError" (.cmp .ne (.var "len(sketch_1.faces)") (.var "len(sketch_2.faces)"))),
+    .s (.raise "ShapeCreationError" (.and (.not (.not (.flag "sketch_mid is not None"))) (.flag "some mid sketch differs")))]
+
+def G_stackSlice : List Stmt := [
+    .s (.raise "ValueError" (.not (.iin (.var "axis") [0, 1, 2]))),
+    .s (.raise "ValueError" (.cmp .lt (.var "index") (.int 0)))]
+
+def G_curveParam : List Stmt := [
+    .s (.raise "ValueError" (.not (.and (.cmp .le (.var "self.bounds[0]") (.var "param")) (.cmp .le (.var "param") (.var "self.bounds[1]")))))]
+
+def G_polylineShape : List Stmt := [
+    .s (.raise "ValueError" (.or (.cmp .ne (.len "np.shape(points)") (.int 2)) (.cmp .ne (.dim "points" 1) (.int 3)))),
+    .s (.raise "ValueError" (.cmp .lt (.dim "points" 0) (.int 2)))]
+
+def G_polarCartesian : List Stmt := [
+    .s (.raise "ValueError" (.not (.iin (.var "direction") [-1, 1]))),
+    .s (.raise "ValueError" (.not (.sin "axis" ["x", "z"])))]
+
+def G_polarPolar : List Stmt := [
+    .s (.raise "ValueError" (.not (.sin "axis" ["x", "z"])))]
+
+def G_rotationLink : List Stmt := [
+    .s (.mutate "self.origin"),
+    .s (.mutate "self.axis"),
+    .s (.mutate "self.orig_leader_radius"),
+    .s (.mutate "self.orig_follower_pos"),
+    .s (.raise "ValueError" (.cmp .lt (.norm (.vvar "leader radius vector")) .tol))]
+
+def G_elbowChain : List Stmt := [
+    .s (.raise "ElbowCreationError" (.not (.flag "isinstance(source.sketch_1, Disk)")))]
+
+def G_meshGrade : List Stmt := [
+    .s (.raise "RuntimeError" (.not (.flag "self.is_assembled")))]
+
+def G_meshBackport : List Stmt := [
+    .s (.raise "RuntimeError" (.not (.flag "self.is_assembled")))]
+
+def G_junctionAddClamp : List Stmt := [
+    .s (.raise "ClampExistsError" (.flag "self.clamp is not None"))]
+
+def G_gridAddLink : List Stmt := [
+    .s (.raise "InvalidLinkError" (.cmp .eq (.var "leader_index") (.int (-1)))),
+    .s (.raise "InvalidLinkError" (.cmp .eq (.var "follower_index") (.int (-1)))),
+    .s (.raise "InvalidLinkError" (.cmp .eq (.var "leader_index") (.var "follower_index")))]
+
 def modelGuardTable : List (String × List Stmt) := [
-  ("faceShape", [
-      .s (.raise "FaceCreationError" (.not (.shapeeq "points" [4, 3])))]),
-  ("faceEdges", [
-      .s (.raise "FaceCreationError" (.and (.flag "edges is not None") (.cmp .ne (.len "edges") (.int 4))))]),
-  ("faceCoplanar", [
-      .s (.raise "FaceCreationError" (.and (.flag "check_coplanar") (.cmp .gt (.abs (.dot (.vsub (.vvar "points[1]") (.vvar "points[0]")) (.cross (.vsub (.vvar "points[3]") (.vvar "points[0]")) (.vsub (.vvar "points[2]") (.vvar "points[0]"))))) .tol)))]),
-  ("faceAddEdge", [
-      .s (.raise "FaceCreationError" (.or (.cmp .lt (.var "corner") (.int 0)) (.cmp .gt (.var "corner") (.int 3))))]),
-  ("faceProjectEdge", [
-      .s (.raise "FaceCreationError" (.or (.cmp .lt (.var "corner") (.int 0)) (.cmp .gt (.var "corner") (.int 3))))]),
-  ("faceRemoveEdges", [
-      .each "corner" "corners" [.raise "FaceCreationError" (.or (.cmp .lt (.var "corner") (.int 0)) (.cmp .gt (.var "corner") (.int 3))), .mut "self.edges"]]),
-  ("pointShape", [
-      .s (.mut "self.position"),
-      .s (.raise "PointCreationError" (.not (.shapeeq "position" [3])))]),
-  ("arrayShape", [
-      .s (.mut "self.points"),
-      .s (.raise "ArrayCreationError" (.cmp .ne (.dim "points" 1) (.int 3))),
-      .s (.raise "ArrayCreationError" (.cmp .le (.dim "points" 0) (.int 1)))]),
-  ("sideVertices", [
-      .s (.raise "SideCreationError" (.cmp .ne (.len "vertices") (.int 8)))]),
-  ("opAddSideEdge", [
-      .s (.raise "EdgeCreationError" (.or (.cmp .lt (.var "corner_idx") (.int 0)) (.cmp .gt (.var "corner_idx") (.int 3))))]),
-  ("opProjectCorner", [
-      .s (.raise "ValueError" (.or (.cmp .lt (.var "corner") (.int 0)) (.cmp .gt (.var "corner") (.int 7))))]),
-  ("opProjectEdge", [
-      .s (.raise "ValueError" (.not (.and (.and (.cmp .le (.int 0) (.var "corner_1")) (.cmp .lt (.var "corner_1") (.int 8))) (.and (.cmp .le (.int 0) (.var "corner_2")) (.cmp .lt (.var "corner_2") (.int 8))))))]),
-  ("opUnchop", [
-      .s (.raise "KeyError" (.not (.iin (.var "axis") [0, 1, 2])))]),
-  ("opSide", [
-      .s (.ret (.seq "side" "bottom")),
-      .s (.ret (.seq "side" "top")),
-      .s (.raise "RuntimeError" (.not (.sin "side" ["front", "right", "back", "left"])))]),
-  ("fromSeries", [
-      .s (.raise "ValueError" (.cmp .lt (.len "faces") (.int 2)))]),
-  ("blockAddEdge", [
-      .s (.raise "ValueError" (.not (.and (.and (.cmp .le (.int 0) (.var "corner_1")) (.cmp .lt (.var "corner_1") (.int 8))) (.and (.cmp .le (.int 0) (.var "corner_2")) (.cmp .lt (.var "corner_2") (.int 8))))))]),
-  ("frameAddBeam", [
-      .s (.raise "ValueError" (.not (.pairin (.var "corner_1") (.var "corner_2") [(0, 1), (2, 3), (6, 7), (4, 5), (0, 3), (1, 2), (5, 6), (4, 7), (0, 4), (1, 5), (2, 6), (3, 7)])))]),
-  ("projectLabels", [
-      .s (.mut "self.label"),
-      .s (.raise "EdgeCreationError" (.not (.and (.cmp .lt (.int 0) (.len "label")) (.cmp .lt (.len "label") (.int 3)))))]),
-  ("projectAddLabel", [
-      .s (.mut "self.label"),
-      .s (.mut "self.label"),
-      .s (.raise "EdgeCreationError" (.not (.and (.cmp .lt (.int 0) (.len "self.label")) (.cmp .lt (.len "self.label") (.int 3)))))]),
-  ("lengthRatio", [
-      .s (.raise "ValueError" (.not (.and (.cmp .lt (.int 0) (.var "chop.length_ratio")) (.cmp .le (.var "chop.length_ratio") (.int 1)))))]),
-  ("annulus", [
-      .s (.raise "AnnulusCreationError" (.cmp .lt (.var "inner_radius") (.int 0))),
-      .s (.mut "self.core"),
-      .s (.mut "self.shell"),
-      .s (.raise "AnnulusCreationError" (.cmp .lt (.sub (.var "self.outer_radius") (.var "self.inner_radius")) .tol)),
-      .s (.raise "AnnulusCreationError" (.cmp .gt (.abs (.dot (.unit (.vvar "normal")) (.vsub (.vvar "outer_radius_point") (.vvar "center_point")))) .tol))]),
-  ("cylinder", [
-      .s (.raise "CylinderCreationError" (.cmp .gt (.abs (.dot (.vsub (.vvar "axis_point_2") (.vvar "axis_point_1")) (.vsub (.vvar "radius_point_1") (.vvar "axis_point_1")))) .tol))]),
-  ("frustum", [
-      .s (.raise "FrustumCreationError" (.cmp .gt (.abs (.dot (.vsub (.vvar "axis_point_2") (.vvar "axis_point_1")) (.vsub (.vvar "radius_point_1") (.vvar "axis_point_1")))) .tol))]),
-  ("chainCylinder", [
-      .s (.raise "CylinderCreationError" (.cmp .lt (.var "length") (.int 0)))]),
-  ("chainFrustum", [
-      .s (.raise "FrustumCreationError" (.cmp .lt (.var "length") (.int 0)))]),
-  ("chainRing", [
-      .s (.raise "ExtrudedRingCreationError" (.cmp .lt (.var "length") (.int 0)))]),
-  ("ringContract", [
-      .s (.raise "ExtrudedRingCreationError" (.cmp .le (.var "inner_radius") (.int 0))),
-      .s (.raise "ExtrudedRingCreationError" (.cmp .lt (.sub (.var "source.sketch_1.inner_radius") (.var "inner_radius")) .tol))]),
-  ("cylinderFill", [
-      .s (.raise "CylinderCreationError" (.cmp .ne (.var "source.sketch_1.n_segments") (.int 8)))]),
-  ("loftedShape", [
-      .s (.raise "ShapeCreationError" (.cmp .ne (.var "len(sketch_1.faces)") (.var "len(sketch_2.faces)"))),
-      .s (.raise "ShapeCreationError" (.and (.not (.not (.flag "sketch_mid is not None"))) (.flag "some mid sketch differs")))]),
-  ("stackSlice", [
-      .s (.raise "ValueError" (.not (.iin (.var "axis") [0, 1, 2]))),
-      .s (.raise "ValueError" (.cmp .lt (.var "index") (.int 0)))]),
-  ("curveParam", [
-      .s (.raise "ValueError" (.not (.and (.cmp .le (.var "self.bounds[0]") (.var "param")) (.cmp .le (.var "param") (.var "self.bounds[1]")))))]),
-  ("polylineShape", [
-      .s (.raise "ValueError" (.or (.cmp .ne (.len "np.shape(points)") (.int 2)) (.cmp .ne (.dim "points" 1) (.int 3)))),
-      .s (.raise "ValueError" (.cmp .lt (.dim "points" 0) (.int 2)))]),
-  ("polarCartesian", [
-      .s (.raise "ValueError" (.not (.iin (.var "direction") [-1, 1]))),
-      .s (.raise "ValueError" (.not (.sin "axis" ["x", "z"])))]),
-  ("polarPolar", [
-      .s (.raise "ValueError" (.not (.sin "axis" ["x", "z"])))]),
-  ("rotationLink", [
-      .s (.mut "self.origin"),
-      .s (.mut "self.axis"),
-      .s (.mut "self.orig_leader_radius"),
-      .s (.mut "self.orig_follower_pos"),
-      .s (.raise "ValueError" (.cmp .lt (.norm (.vvar "leader radius vector")) .tol))]),
-  ("elbowChain", [
-      .s (.raise "ElbowCreationError" (.not (.flag "isinstance(source.sketch_1, Disk)")))]),
-  ("meshGrade", [
-      .s (.raise "RuntimeError" (.not (.flag "self.is_assembled")))]),
-  ("meshBackport", [
-      .s (.raise "RuntimeError" (.not (.flag "self.is_assembled")))]),
-  ("junctionAddClamp", [
-      .s (.raise "ClampExistsError" (.flag "self.clamp is not None"))]),
-  ("gridAddLink", [
-      .s (.raise "InvalidLinkError" (.cmp .eq (.var "leader_index") (.int (-1)))),
-      .s (.raise "InvalidLinkError" (.cmp .eq (.var "follower_index") (.int (-1)))),
-      .s (.raise "InvalidLinkError" (.cmp .eq (.var "leader_index") (.var "follower_index")))])]
+  ("faceShape", G_faceShape),
+  ("faceEdges", G_faceEdges),
+  ("faceCoplanar", G_faceCoplanar),
+  ("faceAddEdge", G_faceAddEdge),
+  ("faceProjectEdge", G_faceProjectEdge),
+  ("faceRemoveEdges", G_faceRemoveEdges),
+  ("pointShape", G_pointShape),
+  ("arrayShape", G_arrayShape),
+  ("sideVertices", G_sideVertices),
+  ("opAddSideEdge", G_opAddSideEdge),
+  ("opProjectCorner", G_opProjectCorner),
+  ("opProjectEdge", G_opProjectEdge),
+  ("opUnchop", G_opUnchop),
+  ("opSide", G_opSide),
+  ("fromSeries", G_fromSeries),
+  ("blockAddEdge", G_blockAddEdge),
+  ("frameAddBeam", G_frameAddBeam),
+  ("projectLabels", G_projectLabels),
+  ("projectAddLabel", G_projectAddLabel),
+  ("lengthRatio", G_lengthRatio),
+  ("annulus", G_annulus),
+  ("cylinder", G_cylinder),
+  ("frustum", G_frustum),
+  ("chainCylinder", G_chainCylinder),
+  ("chainFrustum", G_chainFrustum),
+  ("chainRing", G_chainRing),
+  ("ringContract", G_ringContract),
+  ("cylinderFill", G_cylinderFill),
+  ("loftedShape", G_loftedShape),
+  ("stackSlice", G_stackSlice),
+  ("curveParam", G_curveParam),
+  ("polylineShape", G_polylineShape),
+  ("polarCartesian", G_polarCartesian),
+  ("polarPolar", G_polarPolar),
+  ("rotationLink", G_rotationLink),
+  ("elbowChain", G_elbowChain),
+  ("meshGrade", G_meshGrade),
+  ("meshBackport", G_meshBackport),
+  ("junctionAddClamp", G_junctionAddClamp),
+  ("gridAddLink", G_gridAddLink)]
 
 def modelGuards (entry : String) : List Stmt := (modelGuardTable.lookup entry).getD []
 
